@@ -441,6 +441,25 @@ impl Run {
         });
     }
 
+    /// Like `prop`, but every shard builds its own strategy (for strategies that are not `Sync`).
+    pub fn prop_f<S, G, F>(&self, sub: &str, cases: u32, shards: u32, make: G, f: F)
+    where
+        S: Strategy,
+        G: Fn() -> S + Sync,
+        S::Value: Serialize + std::fmt::Debug + Clone,
+        F: Fn(&S::Value) -> Verdict + Sync,
+    {
+        let shards = shards.max(1).min(cases.max(1));
+        let per = cases.div_ceil(shards);
+        std::thread::scope(|sc| {
+            for sh in 0..shards {
+                let make = &make;
+                let f = &f;
+                sc.spawn(move || self.prop_shard(sub, per, sh, make(), f));
+            }
+        });
+    }
+
     fn prop_shard<S, F>(&self, sub: &str, cases: u32, shard: u32, strategy: S, f: &F)
     where
         S: Strategy,
